@@ -87,7 +87,7 @@ def oracle_program(steps, corr, change=None):
             d = w.objs[a].derivative(w.objs[b])
             if d != (1 if a == b else 0):
                 return "measurement {} .derivative(measurement {}) = {}".format(a, b, d)
-    model = w.model
+    model = list(w.model)
     for phase in (1, 2):
         for k in (w.derived_ids() if phase == 1 else reversed(w.derived_ids())):
             try:
@@ -95,7 +95,7 @@ def oracle_program(steps, corr, change=None):
             except Exception as e:
                 return "reading object {} raised {}: {}".format(k, type(e).__name__, str(e)[:100])
             srcs = CL.reachable_measurements(model, k)
-            pre = "" if phase == 1 else "after {} of measurement {} := {} and recalculate(): ".format(*CL.norm_change(change))
+            pre = "" if phase == 1 else "after {} of object {} := {} and recalculate(): ".format(*CL.norm_change(change)[:3])
             for m, d in obs["derivs"]:
                 if m not in srcs and d != 0:
                     return pre + "object {} does not depend on measurement {} but derivative = {}".format(k, m, d)
